@@ -266,7 +266,7 @@ type directStats struct {
 	perFormat                                         [5]atomic.Int64
 	lineGrammarSkipped                                atomic.Int64
 	needJSONEscape, needXMLEscape, needWorkflowEscape atomic.Int64
-	f7File, f7Msg                                     atomic.Int64
+	f7File, f7Msg, f7SelfChecked                      atomic.Int64
 	deduped, reordered, multiSuite                    atomic.Int64
 	unknownPos                                        atomic.Int64
 }
@@ -325,24 +325,137 @@ func checkSet(r *evid.Run, st *directStats, space string, input []ann) {
 		if err != nil {
 			sig := classify(format, "direct/malformed/"+format, want)
 			countF7(st, sig)
-			r.Violate(sig, fmt.Sprintf("%s rendering does not parse back: %v", format, err), mk(format, out, nil, err))
+			if strings.HasPrefix(sig, "F7/") {
+				selfCheckF7(r, st, want)
+			}
+			r.Violate(sig, f7What(sig)+fmt.Sprintf("%s rendering does not parse back: %v", format, err), mk(format, out, nil, err))
 			continue
 		}
 		if len(got) != len(want) {
 			sig := classify(format, "direct/count/"+format, want)
 			countF7(st, sig)
-			r.Violate(sig, fmt.Sprintf("%s rendering carries %d annotations, the set has %d", format, len(got), len(want)), mk(format, out, got, nil))
+			if strings.HasPrefix(sig, "F7/") {
+				selfCheckF7(r, st, want)
+			}
+			r.Violate(sig, f7What(sig)+fmt.Sprintf("%s rendering carries %d annotations, the set has %d", format, len(got), len(want)), mk(format, out, got, nil))
 			continue
 		}
-		for i := range want {
-			if field := agree(format, want[i], got[i]); field != "" {
-				sig := classify(format, "direct/field/"+format+"/"+field, want)
-				countF7(st, sig)
-				r.Violate(sig, fmt.Sprintf("%s rendering disagrees with the annotation on %s (annotation %d of %d): want %+v got %+v", format, field, i+1, len(want), want[i], got[i]), mk(format, out, got, nil))
-				break
+		if kind, i := firstDisagreement(format, want, got); kind != "" {
+			sig := classify(format, "direct/"+kind+"/"+format, want)
+			countF7(st, sig)
+			if strings.HasPrefix(sig, "F7/") {
+				selfCheckF7(r, st, want)
+			}
+			r.Violate(sig, f7What(sig)+fmt.Sprintf("%s rendering disagrees with the expected list (%s, annotation %d of %d): want %+v got %+v", format, kind, i+1, len(want), want[i], got[i]), mk(format, out, got, nil))
+		}
+	}
+}
+
+// firstDisagreement compares the parsed list with the expected list. kind is "" (agreement), "order" (the
+// parsed list is a permutation of the expected one) or "field/<name>" (first disagreeing field).
+func firstDisagreement(format string, want []ann, got []parsed) (kind string, index int) {
+	for i := range want {
+		field := agree(format, want[i], got[i])
+		if field == "" {
+			continue
+		}
+		if len(want) <= 6 {
+			for _, perm := range permutations(len(want)) {
+				ok := true
+				for k, j := range perm {
+					if agree(format, want[k], got[j]) != "" {
+						ok = false
+						break
+					}
+				}
+				if ok {
+					return "order", i
+				}
+			}
+		}
+		return "field/" + field, i
+	}
+	return "", 0
+}
+
+func permutations(n int) [][]int {
+	var out [][]int
+	cur := make([]int, 0, n)
+	used := make([]bool, n)
+	var rec func()
+	rec = func() {
+		if len(cur) == n {
+			out = append(out, append([]int(nil), cur...))
+			return
+		}
+		for i := 0; i < n; i++ {
+			if !used[i] {
+				used[i] = true
+				cur = append(cur, i)
+				rec()
+				cur = cur[:len(cur)-1]
+				used[i] = false
 			}
 		}
 	}
+	rec()
+	return out
+}
+
+// f7What is the defect-level description put in front of the case-level detail for the F7 signatures.
+func f7What(sig string) string {
+	switch sig {
+	case sigF7File:
+		return "F7: the github-actions printer writes the file= property unescaped (',' ':' '%' CR LF must be %2C %3A %25 %0D %0A), so a runner reads a different file or drops the command: "
+	case sigF7Msg:
+		return "F7: the github-actions printer writes the message unescaped ('%' CR LF must be %25 %0D %0A), so a runner reads a different or truncated message: "
+	}
+	return ""
+}
+
+// refGithubActions renders the list the way the workflow-command grammar requires (escaped). It is used only
+// to show that the github-actions oracle accepts a correct rendering of every case it rejects (self-check
+// of refannot, never compared with buf's output).
+func refGithubActions(list []ann) string {
+	escData := strings.NewReplacer("%", "%25", "\r", "%0D", "\n", "%0A")
+	escProp := strings.NewReplacer("%", "%25", "\r", "%0D", "\n", "%0A", ":", "%3A", ",", "%2C")
+	var b strings.Builder
+	for _, a := range list {
+		file := a.Path
+		if a.NoFile {
+			file = noFilePlaceholder
+		}
+		b.WriteString("::error file=" + escProp.Replace(file))
+		if a.SL > 0 {
+			fmt.Fprintf(&b, ",line=%d", a.SL)
+			if a.SC > 0 {
+				fmt.Fprintf(&b, ",col=%d", a.SC)
+			}
+			if a.EL > 0 {
+				fmt.Fprintf(&b, ",endLine=%d", a.EL)
+				if a.EC > 0 {
+					fmt.Fprintf(&b, ",endColumn=%d", a.EC)
+				}
+			}
+		}
+		msg := a.Msg
+		if a.Plugin != "" {
+			msg += " (" + a.Plugin + ")"
+		}
+		b.WriteString("::" + escData.Replace(msg) + "\n")
+	}
+	return b.String()
+}
+
+func selfCheckF7(r *evid.Run, st *directStats, want []ann) {
+	got, err := parseGithubActions(refGithubActions(want))
+	if err == nil && len(got) == len(want) {
+		if kind, _ := firstDisagreement("github-actions", want, got); kind == "" {
+			st.f7SelfChecked.Add(1)
+			return
+		}
+	}
+	r.Incomplete(fmt.Sprintf("refannot self-check failed: a correctly escaped github-actions rendering of %+v is not accepted (%v)", want, err))
 }
 
 func countF7(st *directStats, sig string) {
@@ -378,8 +491,25 @@ func fragmentStrings(frags []string, minLen, maxLen int) []string {
 
 func tame(s string) bool { return strings.Trim(s, "a") == "" }
 
+// canonicalProbes runs the smallest members of the A1 space that need workflow-command escaping first and
+// sequentially, so that the case recorded for a signature is the same in every run.
+func canonicalProbes(r *evid.Run, st *directStats) {
+	base := ann{Path: "a", SL: 12, SC: 1, EL: 12, EC: 12, Type: "RULE_ID", Msg: "a"}
+	for _, p := range []string{",", "::", "\n"} {
+		a := base
+		a.Path = "a" + p + "a"
+		checkSet(r, st, "A1-hostile-texts", []ann{a})
+	}
+	for _, m := range []string{"\n", "\r", "%25"} {
+		a := base
+		a.Msg = "a" + m + "a"
+		checkSet(r, st, "A1-hostile-texts", []ann{a})
+	}
+}
+
 // hostileTexts: every (file, message) pair of the fragment space as a one-annotation set.
 func hostileTexts(r *evid.Run, st *directStats) {
+	canonicalProbes(r, st)
 	maxPath, maxMsg := 3, 3
 	paths := fragmentStrings(pathFragments, 1, maxPath)
 	msgs := fragmentStrings(msgFragments, 0, maxMsg)
